@@ -65,6 +65,13 @@ class ControlFlowTransformer(converter.Base):
 
     return results
 
+  def _setter_arg_name(self):
+    # Named through the namer: a state variable called like the parameter
+    # would be both parameter and nonlocal. One name serves all setters.
+    if getattr(self, '_setter_arg', None) is None:
+      self._setter_arg = self.ctx.namer.new_symbol('vars_', ())
+    return self._setter_arg
+
   def _create_state_functions(
       self, block_vars, nonlocal_declarations, getter_name, setter_name):
     if not block_vars:
@@ -91,9 +98,9 @@ class ControlFlowTransformer(converter.Base):
     template = """
       def getter_name():
         return guarded_state_vars,
-      def setter_name(vars_):
+      def setter_name(setter_arg):
         nonlocal_declarations
-        state_vars, = vars_
+        state_vars, = setter_arg
     """
     return templates.replace(
         template,
@@ -101,6 +108,7 @@ class ControlFlowTransformer(converter.Base):
         getter_name=getter_name,
         guarded_state_vars=guarded_block_vars,
         setter_name=setter_name,
+        setter_arg=self._setter_arg_name(),
         state_vars=tuple(block_vars))
 
   def _create_loop_options(self, node):
